@@ -3,6 +3,7 @@ package main
 import (
 	"fmt"
 	"math/rand"
+	"regexp"
 	"strings"
 
 	"verif/internal/grun"
@@ -298,9 +299,19 @@ func assignKey(t *pgen.Type) string {
 	// a named non-struct type and the unnamed type identical to its underlying type are mutually assignable
 	// (predeclared basic types are named types themselves: NInt and int64 are NOT mutually assignable)
 	if t.K == pgen.KNamed && t.Under.K != pgen.KStruct && t.Under.K != pgen.KBasic {
-		return t.Under.Expr("", nil)
+		return reAliasBasic.ReplaceAllStringFunc(t.Under.Expr("", nil), unaliasBasic)
 	}
-	return t.Expr("", nil)
+	return reAliasBasic.ReplaceAllStringFunc(t.Expr("", nil), unaliasBasic)
+}
+
+// rune and byte are aliases: []rune and []int32 are the same argument type for goderive
+var reAliasBasic = regexp.MustCompile(`\b(rune|byte)\b`)
+
+func unaliasBasic(s string) string {
+	if s == "rune" {
+		return "int32"
+	}
+	return "uint8"
 }
 
 func opPlugins(op string, t *pgen.Type) []string {
